@@ -1288,4 +1288,28 @@ theorem whileLoop_rel_fuel {σ} {cond : ε → R Bool} {body : ε → R (Flow ε
 
 end Loops
 
+/-! ## one-dimensional arrays: no item is itself an array (side condition of `npWhere`) -/
+
+/-- no item of an array of bools computed from a list is itself an array (a row). -/
+@[simp] theorem any_isArr_map_bool {α} (p : α → Bool) (l : List α) :
+    (l.map fun x => PV.bool (p x)).any PV.isArr = false := by
+  induction l with
+  | nil => rfl
+  | cons x xs ih => rw [List.map_cons, List.any_cons, ih]; rfl
+@[simp] theorem any_isArr_map_bool' (l : List Bool) : (l.map PV.bool).any PV.isArr = false :=
+  any_isArr_map_bool (fun b => b) l
+/-- … nor of an array of integers. -/
+@[simp] theorem any_isArr_map_int {α} (f : α → Int) (l : List α) :
+    (l.map fun x => PV.int (f x)).any PV.isArr = false := by
+  induction l with
+  | nil => rfl
+  | cons x xs ih => rw [List.map_cons, List.any_cons, ih]; rfl
+@[simp] theorem any_isArr_map_int' (l : List Int) : (l.map PV.int).any PV.isArr = false :=
+  any_isArr_map_int (fun b => b) l
+@[simp] theorem any_isArr_nil : ([] : List PV).any PV.isArr = false := rfl
+@[simp] theorem any_isArr_cons_bool (b : Bool) (l : List PV) :
+    (PV.bool b :: l).any PV.isArr = l.any PV.isArr := by rw [List.any_cons]; rfl
+@[simp] theorem any_isArr_cons_int (n : Int) (l : List PV) :
+    (PV.int n :: l).any PV.isArr = l.any PV.isArr := by rw [List.any_cons]; rfl
+
 end Dsw.Tie
